@@ -35,6 +35,7 @@ func runSessions(r *eng.Run, scripts []*script, stick, segMode int) ([]*sessResu
 		r.Internalf("scheduler: %v", err)
 	}
 	SharedFlateDialer = NewSharedDialer()
+	Broadcast = []byte(broadcastText)
 	// Real sync.Pools (the library's own, or ones a change introduces) are a
 	// source of nondeterminism the sim pool does not cover: collections are
 	// only allowed here, between executions, and two of them empty every
@@ -137,7 +138,7 @@ func C19(r *eng.Run) {
 				// Every scripted session is built to succeed when run alone.
 				r.Failf("session_alone_wrong", "session %d run alone: %s", i, l)
 			}
-			if strings.Contains(l, "match=false") || strings.HasPrefix(l, "PANIC") || strings.Contains(l, "payload was modified") || strings.Contains(l, "was modified later") || strings.Contains(l, "intact=false") || strings.Contains(l, "its compressor emits") || strings.Contains(l, "wrong address") || strings.Contains(l, "vanished: failed=false") {
+			if strings.Contains(l, "match=false") || strings.HasPrefix(l, "PANIC") || strings.Contains(l, "payload was modified") || strings.Contains(l, "was modified later") || strings.Contains(l, "intact=false") || strings.Contains(l, "its compressor emits") || strings.Contains(l, "wrong address") || strings.Contains(l, "wrong close report") || strings.Contains(l, "is not intact") || strings.Contains(l, "vanished: failed=false") {
 				r.Failf("session_alone_wrong", "session %d run alone: %s", i, l)
 			}
 		}
